@@ -447,7 +447,7 @@ def case_from_doc(d):
     sizes = d["sizes"]
     lin = [np.array(x, dtype=np.float64).reshape(tuple(sizes[n] for n in f)) for f, x in zip(factors, d["data"])]
     g = Graph(factors, sizes, lin, d["sr"])
-    kw = {k: d[k] for k in ("e1", "e2", "output", "scales") if k in d}
+    kw = {k: d[k] for k in ("e1", "e2", "output", "scales", "expect_value") if k in d}
     return Case(g, d["plates"], d["elim"], d["variant"], **kw)
 
 
@@ -551,6 +551,16 @@ def evaluate(ctx, c, answers, use_driver=True):
         else:
             ctx.count("fidelity:decline-agree")
     if status == "declined":
+        if model is not None and model[0] == "value":
+            # the elimination loop completes in the model (and its value equals the unrolling), yet funsor
+            # raised: the graph is tractable, the property promises a value.  Never observed on the pinned
+            # tree (0 of ~27000 cases over seeds 0-2), so this is gated.
+            ctx.fail("correspondence", f"C09.{v}-declines-tractable-graph", witness=dict(c.describe(), expect_value=True),
+                     expected="a value: the model's loop completes and equals the unrolling", got=f"raised {rs}",
+                     python=PY_TEMPLATE.format(variant=v, case=dict(c.describe(), expect_value=True)))
+        elif model is None and c.kw.get("expect_value"):
+            ctx.fail("correspondence", f"C09.{v}-declines-tractable-graph", witness=c.describe(),
+                     expected="a value", got=f"raised {rs}")
         ctx.case(sample=None, nontrivial_key=None)
         return
 
